@@ -72,7 +72,7 @@ def run_captured(spec, eval_in_detail):
 
     MM.make_pmappings = wrapper
     try:
-        m = G.run_mapper(spec, eval_in_detail=eval_in_detail)
+        m = G.run_mapper2(spec, eval_in_detail=eval_in_detail)
     finally:
         MM.make_pmappings = orig
     return m, cap.get("pm")
@@ -217,9 +217,14 @@ def check(desc, col):
             c = f"Total{SEP}{name}"
             if c in a:
                 seen += 1
-                if c not in h:
+                if name == "energy_delay_product":
+                    # not the model's own EDP column (same helper as the joiner's): energy x latency of the model
+                    want = h.get(f"Total{SEP}energy", math.nan) * h.get(f"Total{SEP}latency", math.nan)
+                elif c not in h:
                     raise Violation(f"model evaluation lacks {c}", key="missing-column")
-                cmp(a[c], h[c], f"row {i} {c} (eval_in_detail=False)", key)
+                else:
+                    want = h[c]
+                cmp(a[c], want, f"row {i} {c} (eval_in_detail=False)", key)
         if not seen:
             raise Violation(f"joined result has no Total objective column: {sorted(a)[:8]}", key="missing-column")
         ua, uh = usage_max(a), usage_max(h)
@@ -248,7 +253,7 @@ def check(desc, col):
 
     # ---- run B: eval_in_detail=True -------------------------------------------------------
     try:
-        B = G.run_mapper(G.build_spec(sp), eval_in_detail=True)
+        B = G.run_mapper2(G.build_spec(sp), eval_in_detail=True)
     except Exception as e:  # noqa: BLE001
         raise Violation(f"map_workload_to_arch(eval_in_detail=True) raised {type(e).__name__} although eval_in_detail=False "
                         f"returned {nA} mappings: {str(e)[:300]}", key=f"detail-crash:{type(e).__name__}")
